@@ -187,8 +187,12 @@ class Explorer:
         fee_cuts: Tuple[int, ...] = (272000,),
         restrict: Optional[Dict[Any, List[Any]]] = None,
         max_runs: int = 200000,
+        initial_env: Optional[Dict[Any, Any]] = None,
+        group_mode: bool = False,
     ):
         self.p = prog
+        self.initial_env = dict(initial_env or {})
+        self.group_mode = group_mode
         self.hook = transition_hook
         self.fee_cuts = fee_cuts
         self.restrict = restrict or {}
@@ -216,6 +220,8 @@ class Explorer:
         _, member, field = key
         if field == "TypeEnum":
             own = member == "self" or member == env.get("GroupIndex", -1)
+            if key in self.restrict:
+                return list(self.restrict[key])
             if p.stateful and own:
                 return [6]
             return [1, 2, 3, 4, 5, 6]
@@ -259,7 +265,7 @@ class Explorer:
 
     def _own(self, st: _State) -> Any:
         """Member id of the governed transaction."""
-        if not self.p.uses_gtxn:
+        if not self.p.uses_gtxn and not self.group_mode:
             return "self"
         if "GroupSize" not in st.env:
             raise NeedInput("GroupSize")
@@ -492,7 +498,9 @@ class Explorer:
     # -- search ------------------------------------------------------------------------
     def explore(self) -> List[Run]:  # pylint: disable=too-many-branches
         runs: List[Run] = []
-        work = [_State()]
+        st0 = _State()
+        st0.env = dict(self.initial_env)
+        work = [st0]
         stats = self.stats
         while work:
             st = work.pop()
@@ -552,7 +560,7 @@ class Explorer:
                         stats.runs += 1
                         break
                     st.seen.add(key)
-        if self.p.stateful and self.p.uses_gtxn:
+        if self.p.stateful and (self.p.uses_gtxn or self.group_mode):
             # the governed transaction of an application is an appl transaction
             runs = [
                 r
